@@ -3,4 +3,4 @@
 P=$1; shift
 git -C /repo apply "$P" || git -C /repo apply --3way "$P" || { echo "PATCH DOES NOT APPLY"; exit 3; }
 for p in "$@"; do /venv/bin/python /verif/check $p --no-write 2>&1 | grep -E "^\[|FAIL|VIOLATION|ANALYSIS|KNOWN" ; done
-git -C /repo checkout -- . ; git -C /repo status --short | head -3
+git -C /repo reset -q --hard HEAD; git -C /repo status --short | head -3
